@@ -93,6 +93,17 @@ def main():
         die('Default for MockDisplay is no longer { pixels: [None; SIZE * SIZE], allow_overdraw: false, allow_out_of_bounds_drawing: false }')
     if sq.count('implDefaultforMockDisplay') + sq.count('Default<C>forMockDisplay') + sq.count('>DefaultforMockDisplay<C>') != 1:
         die('expected exactly one Default impl for MockDisplay')
+    # MockDisplay implements ONLY draw_iter of DrawTarget (fill_contiguous / fill_solid / clear are the trait defaults the
+    # model unfolds), and its bounding box is OriginDimensions with size() = DISPLAY_AREA.size
+    dt = ('impl<C>DrawTargetforMockDisplay<C>whereC:PixelColor,{typeColor=C;typeError=core::convert::Infallible;'
+          'fndraw_iter<I>(&mutself,pixels:I)->Result<(),Self::Error>whereI:IntoIterator<Item=Pixel<Self::Color>>,'
+          '{forpixelinpixels.into_iter(){letPixel(point,color)=pixel;self.draw_pixel(point,color);}Ok(())}}')
+    if sq.count('DrawTargetforMockDisplay') != 1 or dt not in sq:
+        die('`impl DrawTarget for MockDisplay` is no longer exactly { type Color; type Error; fn draw_iter { for pixel in pixels '
+            '{ self.draw_pixel(point, color) } Ok(()) } } (an overridden fill_solid / fill_contiguous / clear is not modelled)')
+    od = 'impl<C>OriginDimensionsforMockDisplay<C>whereC:PixelColor,{fnsize(&self)->Size{DISPLAY_AREA.size}}'
+    if sq.count('DimensionsforMockDisplay') != 1 or od not in sq:
+        die('MockDisplay is no longer OriginDimensions with size() = DISPLAY_AREA.size')
     md = re.search(r'letdiff_color=match\(self_color,other_color\)\{\(Some\(_\),None\)=>Some\(Rgb888::(\w+)\),'
                    r'\(None,Some\(_\)\)=>Some\(Rgb888::(\w+)\),\(Some\(s\),Some\(o\)\)ifs!=o=>Some\(Rgb888::(\w+)\),_=>None,\};', sq)
     if not md:
@@ -272,6 +283,8 @@ def main():
     o.append('')
     o.append('(* mod.rs: const SIZE: usize *)')
     o.append('Definition SIZE : Z := %d.' % size)
+    o.append('(* mod.rs: `impl DrawTarget for MockDisplay` defines draw_iter and nothing else (checked by the translator, which refuses any other shape) *)')
+    o.append('Definition DRAWTARGET_ONLY_DRAW_ITER : bool := true.')
     o.append('(* mod.rs MockDisplay::diff: raw values of the Rgb888 colours for (only self, only other, both but different) *)')
     o.append('Definition DIFF_ONLY_SELF : Z := %d.  (* Rgb888::%s *)' % (rgb_raw('Rgb888', diff_names[0]), diff_names[0]))
     o.append('Definition DIFF_ONLY_OTHER : Z := %d.  (* Rgb888::%s *)' % (rgb_raw('Rgb888', diff_names[1]), diff_names[1]))
